@@ -547,9 +547,13 @@ def oracle(case, rng, model_p=None):
     if not np.all(np.isfinite(p)):
         return {"reason": "prox returned a non-finite value", "p": _js(p), "v": _js(v), "lam": lam}
     fp = impl.value(p)
+    shrink = 1.0 - (1e-5 if case.get("dtype") == "float32" else 1e-12)
     if not math.isfinite(fp) and fam == "l2ball":
         # the projection lands on the sphere up to rounding: accept a point that is in the set after a 1e-12 relative shrink
-        fp = impl.value(p * (1.0 - (1e-5 if case.get("dtype") == "float32" else 1e-12)))
+        fp = impl.value(p * shrink)
+    if not math.isfinite(fp) and fam == "lossgen" and case["params"].get("inner") == "l2ball":
+        yv = np.asarray(case["y"], dtype=np.float64)
+        fp = impl.value(yv + (p - yv) * shrink)
     if not math.isfinite(fp):
         return {"reason": "prox value outside the domain of f (f(p) not finite)", "p": _js(p), "f(p)": fp, "v": _js(v), "lam": lam}
     Fp = impl.objective(p, v)
